@@ -323,3 +323,66 @@ def run_toklen(run, P, units=('coap_pdu.c',)):
                                           '%s measures the buffer with actual_token.length, every sibling uses e_token_length: for tokens of 13 bytes and more the two differ by the '
                                           'RFC 8974 extension bytes, so the size written / position computed is off by 1 or 2' % short(x)[:70], [])
     run.require(n >= 6 or run.fixture_mode, 'R-CODEC-TAB(5): only %d buffer/token-size expressions found in %s' % (n, units))
+
+
+# ---------------------------------------------------------------------------------------------------------------
+TOKEN_EXT = {'COAP_TOKEN_EXT_1B_BIAS': 1, 'COAP_TOKEN_EXT_2B_BIAS': 2}
+
+
+def run_tokext(run, P, units=('coap_pdu.c',)):
+    """(6) RFC 8974 extended token length on the read side.  Wherever a decoder turns the extension byte(s) into the size the token
+    occupies on the wire it adds the bias of that form AND the number of extension bytes (1 resp. 2): `token[0] + BIAS_1B + 1`,
+    `(token[0] << 8) + token[1] + BIAS_2B + 2`.  Every additive chain in the codec unit that contains one of the two bias macros
+    and a byte loaded from the buffer must sum its constants to bias + extension bytes -- coap_pdu_parse_size() (stream framing)
+    and coap_pdu_parse_header() have to agree, otherwise a stream is cut 1 or 2 bytes short for tokens of 13 bytes and more."""
+    run.rule('R-CODEC-TAB')
+    n = 0
+
+    def flatten(x, out):
+        x = strip(x)
+        if isinstance(x, dict) and x.get('k') == 'bin' and x.get('op') == '+':
+            flatten(x['l'], out)
+            flatten(x['r'], out)
+        else:
+            out.append(x)
+
+    for f in sorted(P.lib_funcs(), key=lambda f: f['name']):
+        if f['unit'] not in units:
+            continue
+        seen = set()
+        for b, ev in P.events(f):
+            t = ev['e']
+            if t.get('k') != 'asg':
+                continue
+            rhs = strip(t['r'])
+            if not (isinstance(rhs, dict) and rhs.get('k') == 'bin' and rhs.get('op') == '+'):
+                continue
+            terms = []
+            flatten(rhs, terms)
+            macro = None
+            csum = 0
+            loads = 0
+            for x in terms:
+                if isinstance(x, dict) and x.get('k') == 'int':
+                    csum += x['v']
+                    if x.get('mn') in TOKEN_EXT:
+                        macro = x['mn']
+                elif isinstance(x, dict) and any(isinstance(y, dict) and y.get('k') in ('idx', 'sub') for y in walk(x)):
+                    loads += 1
+            if not macro or not loads:
+                continue
+            k2 = (ev['loc'], short(rhs)[:60])
+            if k2 in seen:
+                continue
+            seen.add(k2)
+            n += 1
+            bias = P.const_named(macro)
+            want = bias + TOKEN_EXT[macro]
+            run.instance('R-CODEC-TAB', '%s: %s' % (f['name'], short(t)[:80]))
+            ok = csum == want
+            run.oblige('R-CODEC-TAB', ok, '%s:tokext:%s' % (f['name'], macro))
+            if not ok:
+                run.violation('R-CODEC-TAB', f['name'], ev['loc'], 'token-extension-bytes:%s' % macro,
+                              '%s adds constants summing to %d; the on-wire size of a token in this extension form is value + %d (bias) + %d (extension length byte%s) = + %d: '
+                              'this decoder and its sibling disagree by %d byte(s)' % (short(t)[:70], csum, bias, TOKEN_EXT[macro], 's' if TOKEN_EXT[macro] > 1 else '', want, abs(want - csum)), [])
+    run.require(n >= 4 or run.fixture_mode, 'R-CODEC-TAB(6): only %d extended-token size expressions found in %s' % (n, units))
